@@ -25,7 +25,8 @@ from harness.gen import a07 as H
 
 DRIVERS = ["drv_c10"]
 RULE = ("one case = one model: (text) a generated Modelica file with 0-3 component classes (one level may nest another) "
-        "and a main model mixing variability (none/discrete/parameter/constant) x causality (none/input/output) x type "
+        "and a main model, optionally user-defined types derived from Real/Integer/Boolean/String (also of one another) used "
+        "at the top level and in the component classes (scalars and arrays), mixing variability (none/discrete/parameter/constant) x causality (none/input/output) x type "
         "(Real/Integer/Boolean/String) x scalar/vector/empty-array declarations, with der() applied directly, inside "
         "expressions, on whole expressions, in bindings, in initial equations, in component-class equations, on component "
         "variables from outside, on vector elements and in for-loops; (ast) a hand-built flat class with arbitrary prefix "
@@ -173,6 +174,15 @@ class TextGen:
         self.rng = rng
         self.finding = finding_stream
         self.uid = 0
+        # user-defined types derived from the elementary ones (`type Volt = Real(unit="V")`, also of one another):
+        # flatten_symbols treats symbols of such types in a separate branch
+        self.types = []  # (name, base, text)
+        if rng.random() < 0.65:
+            for nm, base, txt in (("Volt", "Real", 'type Volt = Real(unit = "V");'), ("Len", "Real", "type Len = Real;"),
+                                  ("Count", "Integer", "type Count = Integer;"), ("Flag", "Boolean", "type Flag = Boolean;"),
+                                  ("Name", "String", "type Name = String;"), ("Volt2", "Real", "type Volt2 = Volt;")):
+                if rng.random() < 0.6 and (nm != "Volt2" or any(t[0] == "Volt" for t in self.types)):
+                    self.types.append((nm, base, txt))
 
     def fresh(self, stem):
         self.uid += 1
@@ -192,12 +202,19 @@ class TextGen:
             if var == "discrete":
                 var = ""
         dims = []
+        noatom = False
         if typ == "Real" and allow_vec and r.random() < 0.22:
             dims = [r.choice([2, 3])]
+        elif typ != "String" and not allow_vec and r.random() < 0.12:
+            dims, noatom = [r.choice([2, 3])], True  # an array in a component class: declared, not used in equations
         elif r.random() < 0.05:
             dims = [0]
         name = self.fresh({"Real": "r", "Integer": "k", "Boolean": "b", "String": "s"}[typ])
-        d = {"kind": "var", "name": name, "type": typ, "var": var, "caus": caus, "dims": dims, "binding": None}
+        d = {"kind": "var", "name": name, "type": typ, "var": var, "caus": caus, "dims": dims, "binding": None,
+             "noatom": noatom}
+        derived = [t[0] for t in self.types if t[1] == typ]
+        if derived and r.random() < 0.45:
+            d["tname"] = r.choice(derived)
         if var in ("parameter", "constant") and not dims:
             if r.random() < 0.85 or var == "constant":
                 d["binding"] = {"Real": r.choice(LITS), "Integer": str(r.randint(1, 4)),
@@ -212,7 +229,7 @@ class TextGen:
     def decl_text(d):
         dim = "[%s]" % ",".join(str(x) for x in d["dims"]) if d["dims"] else ""
         b = " = %s" % d["binding"] if d["binding"] is not None else ""
-        return "  %s %s %s%s%s;" % (d["var"], d["caus"], d["type"], " " + d["name"] + dim, b)
+        return "  %s %s %s%s%s;" % (d["var"], d["caus"], d.get("tname", d["type"]), " " + d["name"] + dim, b)
 
     # ---- atoms: usable Real scalar references of a class (local names) -----------------------
     def atoms_of(self, cls, classes):
@@ -220,7 +237,7 @@ class TextGen:
         out = []
         for it in cls["items"]:
             if it["kind"] == "var":
-                if it["type"] != "Real" or 0 in it["dims"]:
+                if it["type"] != "Real" or 0 in it["dims"] or it.get("noatom"):
                     continue
                 isvar = it["var"] not in ("parameter", "constant")
                 if it["dims"]:
@@ -265,7 +282,8 @@ class TextGen:
         eqs, ieqs, der_local, ndelay = [], [], [], 0
         if not atoms:
             return eqs, ieqs, der_local, ndelay
-        own = [it for it in cls["items"] if it["kind"] == "var" and it["type"] == "Real" and 0 not in it["dims"]]
+        own = [it for it in cls["items"] if it["kind"] == "var" and it["type"] == "Real" and 0 not in it["dims"]
+               and not it.get("noatom")]
         lhs_pool = [a for a in atoms if a[2]]
 
         def some_lhs():
@@ -404,6 +422,9 @@ class TextGen:
                 lines.extend(c["ieqs"])
             lines.append("end %s;" % cname)
             chunks.append("\n".join(lines))
+        # type definitions anywhere between the classes (a derived-of-derived type after its base is not required)
+        for t in self.types:
+            chunks.insert(r.randint(0, len(chunks)), t[2])
         text = "\n".join(chunks) + "\n"
         # description: flat variables in instantiation order + names under der
         vars_, der = [], []
@@ -413,7 +434,8 @@ class TextGen:
             for it in c["items"]:
                 if it["kind"] == "var":
                     vars_.append({"name": prefix + it["name"], "type": it["type"], "prefixes": self.prefixes(it),
-                                  "pos": pos[(cname, it["name"])], "dims": it["dims"], "nested": prefix != ""})
+                                  "pos": pos[(cname, it["name"])], "dims": it["dims"], "nested": prefix != "",
+                                  "derived": "tname" in it})
                 else:
                     inst(it["cls"], prefix + it["name"] + ".")
             for n in c["der_local"]:
@@ -731,6 +753,12 @@ def buckets(ctx, case, got):
             ctx.count("two-category-prefixes")
         if v.get("nested") and "input" in p:
             ctx.count("nested-input")
+        if v.get("nested") and v.get("derived") and ("input" in p or "output" in p):
+            ctx.count("nested-derived-type-input-or-output")
+        if v.get("nested") and v["dims"] and 0 not in v["dims"]:
+            ctx.count("nested-array")
+        if v.get("derived"):
+            ctx.count("derived-type")
         if 0 in v["dims"]:
             ctx.count("empty-array")
     if desc.get("ndelay"):
